@@ -1261,12 +1261,17 @@ def pred_c17(line, st):
     return None
 
 
+from pred_cgjkr import pred_cgjkr  # noqa: E402  (CGJKR classes: key generation, refresh, threshold DSS; real outputs only)
+
 PROPS["C15"] = dict(
     module="TmcgProps.C15",
     areas=[("dkg", {"quick": 10, "thorough": 60}, ["--kind", "gen", "--par", "4"], "fast"),
-           ("dkg", {"quick": 8, "thorough": 40}, ["--kind", "vss", "--par", "4"], "fast")],
-    obligations=[("Tmcg.C15." + n, "full") for n in ["qual_agree'", "honest_in_qual'", 'share_matches_vk_run', 'checkKey_run', 'share_check', 'share_check_iff', 'feldman_check', 'lagrange0_val', 'lagrange0_unique', 'interpolatePolynom_val', 'vss_reconstruct_honest', 'interpolate_secret', 'interpolate_secret_unique', 'share_matches_vk', 'checkKey_of_checks', 'vssRecv1_complains', 'vssRecv1_honest_dealer', 'genCheck4_sound', 'genReadAnswers_sound', 'genReadAnswers_answered', 'genResolveGo_share_valid', 'genResolve_qual', 'mkGrp_valid']],
-    predicate=pred_c15,
+           ("dkg", {"quick": 8, "thorough": 40}, ["--kind", "vss", "--par", "4"], "fast"),
+           ("cgjkr", {"quick": 12, "thorough": 36}, ["--kind", "gen", "--par", "4"], "fast")],
+    obligations=[("Tmcg.C15." + n, "full") for n in ["refresh_keeps_secret", "refresh_keeps_key", "refresh_run_keeps_secret", "rvShare_checked",
+                                                   "rv_share_matches_commitments", "gen_key_matches_secret", "xqual_agree", "honest_in_xqual"]]
+                + [("Tmcg.C15." + n, "full") for n in ["qual_agree'", "honest_in_qual'", 'share_matches_vk_run', 'checkKey_run', 'share_check', 'share_check_iff', 'feldman_check', 'lagrange0_val', 'lagrange0_unique', 'interpolatePolynom_val', 'vss_reconstruct_honest', 'interpolate_secret', 'interpolate_secret_unique', 'share_matches_vk', 'checkKey_of_checks', 'vssRecv1_complains', 'vssRecv1_honest_dealer', 'genCheck4_sound', 'genReadAnswers_sound', 'genReadAnswers_answered', 'genResolveGo_share_valid', 'genResolve_qual', 'mkGrp_valid']],
+    predicate=lambda line, st: (pred_cgjkr(line, st) if line.startswith(("prop.cgjkr.", "cgjkr.")) else pred_c15(line, st)),
     level_text="Theorems in Lean 4 about a model of PedersenVSS::Share/Reconstruct and GennaroJareckiKrawczykRabinDKG::Generate as synchronous rounds over n parties with coin lists and deviation scripts: "
                "for ALL scripts of at most t other parties every honest party ends with the same QUAL and no honest party is disqualified; shares of the committed polynomials satisfy the share equations (iff opening), "
                "the per-dealer checks a party performs give g^x_i = v_i and CheckKey, every t+1 shares interpolate to the same secret whose image is the product of the dealers' g^z_j (Lagrange/interpolation routines proved), "
@@ -1274,29 +1279,35 @@ PROPS["C15"] = dict(
                "Correspondence: the real classes as n = 2..7 forked parties over pipes with the real reliable broadcast (virtual clock), honest runs and 30 deviation kinds; the model recomputes every party's final state. "
                "An independent predicate checks agreement on QUAL/y/v_i, g^x_i = v_i, interpolation of every (t+1)-subset, VSS consistency on the real outputs. "
                "Run level: for all scripts of at most t others, every honest party that finishes without a reconstruction has g^x_i = v_i and CheckKey true. "
-               "Partial: Generate-succeeds and key agreement for runs WITH reconstruction are checked by the predicate only; share refresh (CGJKR) is not covered.",
+               "The adaptively secure classes (CGJKR RVSS/ZVSS/DKG): a refresh (sum of zero-sharings of the admitted dealers) leaves the secret interpolated from every (t+1)-subset and the key unchanged, on the abstract algebra and on the states the model's last refresh round computes; "
+               "agreement on the qualified set of the key sharing for all scripts; shares match the verification values; the key is the image of the interpolated secret; real Generate+Refresh runs (28 deviation kinds) against the model and an independent predicate. "
+               "Partial: Generate-succeeds and key agreement for runs WITH reconstruction are checked by the predicate only.",
     level_note=LEVEL_NOTE + " The reliable broadcast is abstracted to a consistent per-sender FIFO (property C14); synchrony as in the property's quantifier; n < 2^64.",
     assumptions=["synchronous-round abstraction of the broadcast and of time-outs (a late message = a missing message)",
-                 "partial: share refresh (CanettiGennaroJareckiKrawczykRabinASTC) not covered; Generate-succeeds and key agreement for runs with reconstruction: predicate on real runs only",
+                 "partial: Generate-succeeds and key agreement for runs with reconstruction: predicate on real runs only; the zero constant term of an admitted refresh dealer is a hypothesis (binding of the commitments)",
                  "the harness uses at most min(t, (n-1)/3) deviating parties where the real reliable broadcast is involved"],
 )
 
 PROPS["C16"] = dict(
     module="TmcgProps.C16",
     areas=[("tsig", {"quick": 150, "thorough": 2000}, [], "san"),
-           ("dkg", {"quick": 6, "thorough": 30}, ["--kind", "sign", "--par", "4"], "fast")],
+           ("dkg", {"quick": 6, "thorough": 30}, ["--kind", "sign", "--par", "4"], "fast"),
+           ("cgjkr", {"quick": 4, "thorough": 12}, ["--kind", "sign", "--par", "4"], "fast")],
     obligations=[("Tmcg.C16.dssVerify_iff", "full"), ("Tmcg.C16.dssVerify_textbook_signature", "full"), ("Tmcg.C16.dssVerify_range", "full"),
                  ("Tmcg.C16.ntsVerify_iff", "full"), ("Tmcg.C16.ntsVerify_textbook_signature", "full"), ("Tmcg.C16.ntsVerify_range", "full"),
-                 ("Tmcg.C16.sign_ntsVerify", "full"), ("Tmcg.C16.sign_verifies", "full"), ("Tmcg.C16.sign_relation_checked", "full"), ("Tmcg.C16.sign_relation_honest", "full")],
-    predicate=pred_c16,
+                 ("Tmcg.C16.sign_ntsVerify", "full"), ("Tmcg.C16.sign_verifies", "full"), ("Tmcg.C16.sign_relation_checked", "full"), ("Tmcg.C16.sign_relation_honest", "full"),
+                 ("Tmcg.C16.sign_dssVerify", "full"), ("Tmcg.C16.sign_dssVerify_code", "full"), ("Tmcg.C16.sign_r_eq", "full")],
+    predicate=lambda line, st: (pred_cgjkr(line, st) if line.startswith(("prop.cgjkr.", "cgjkr.")) else pred_c16(line, st)),
     level_text="Theorems in Lean 4: the models of CanettiGennaroJareckiKrawczykRabinDSS::Verify and GennaroJareckiKrawczykRabinNTS::Verify return true exactly on the textbook DSA resp. Schnorr acceptance condition "
                "(range conditions and verification equation written in ZMod p, independent of the model's routines) for every input, and accept every textbook signature. Correspondence: the real verifiers on textbook "
                "signatures made by the harness with a known key and on the range-boundary / mutation catalogue (r,s ± q, negated, 0, q, swapped, other key, key outside the group, forged for key 1), compared with the model "
                "and judged by an independent Python evaluation of the equations. Threshold Schnorr signing (GJKR NTS): theorems that the per-share checks an honest party performs, c = H(m, prod r_j) and s = sum s_j make the combined (c, s) accepted by the verifier model; "
                "correspondence and predicate on real signing runs (n forked parties, bad/missing shares of up to t signers): all honest parties that complete hold the same (c, s), it satisfies the textbook equation and the library's verifier accepts it. "
-               "Partial: the threshold DSS protocol (CGJKR Sign) is not covered; only its verifier is.",
+               "Threshold DSS (CGJKR): the (r, s) a completed Sign reconstructs is accepted by the DSA verifier model (theorem on the reconstructed values); real runs — DSS Generate, Sign, Refresh, Sign again, full and reduced signer sets, messages 0, 1, q-1, q, random, deviating signers — judged by the textbook DSA equation and agreement of all honest parties. "
+               "Partial: DSS::Sign itself is not modelled step by step (summary lines and the theorem on its outputs only).",
     level_note=LEVEL_NOTE + " The hash of the Schnorr verifier is an oracle parameter (answers logged from tmcg_mpz_shash).",
-    assumptions=["partial: CGJKR DSS threshold signing not modelled (its verifier is); NTS signing modelled on top of the synchronous DKG model"],
+    assumptions=["partial: CGJKR DSS::Sign is judged on its outputs (predicate + theorem on the reconstructed values), not modelled step by step; NTS signing modelled on top of the synchronous DKG model",
+                 "Sign never tests r != 0 / s != 0: with probability about 2/q a completed run outputs a pair Verify refuses (hypothesis 0 < r, 0 < s in the theorem)"],
 )
 from pred_c17b import pred_c17b  # noqa: E402  (multi-party flip, judged on the real outputs)
 
